@@ -1,7 +1,32 @@
-"""C09 check configuration (data only)."""
+"""C09 check configuration."""
+import json
+import os
+
 from propbase import KERNEL, HARNESS
 
+# what a run must have reached to count as evidence for the cases named in level_text / design
+REQUIRED_TAGS = ["exact_fit_view=true", "exact_fit_height=true", "height_cut=true", "chained_view=true", "layout_position=nonzero",
+                 "clipped=true", "view=transposed", "view=strided", "invalid_scalar_bytes=true", "set_cursor=true", "session=true",
+                 "put_text=true", "tty=true", "multi_chunk=true", "kind=json_text", "json_glyph_with_text=true", "str_view=true",
+                 "wraps=false", "glyphs=false"]
+
+
+def require_reach(ctx):
+    """a run whose generated cases miss one of the required kinds is reported (not silently accepted)"""
+    if ctx.get("replay"):
+        return {}
+    dist = json.load(open(os.path.join(ctx["build"], "cases", "C09", "meta.json"))).get("distribution", {})
+    cov = {"reach " + t: dist.get(t, 0) for t in REQUIRED_TAGS}
+    missing = [t for t in REQUIRED_TAGS if not dist.get(t, 0)]
+    violations = []
+    if missing:
+        violations.append({"kind": "broken-correspondence",
+                           "what": "the generated cases did not reach: %s (generator changed?)" % ", ".join(missing), "case": {}})
+    return {"violations": violations, "coverage": cov}
+
+
 PROP = {'gen': [],
+ 'extra': [require_reach],
  'coq_props': ['theories/Props/C09.vo'],
  'coq_corr': ['theories/Corr/C09Corr.vo'],
  'props_file': 'theories/Props/C09.v',
@@ -16,8 +41,12 @@ PROP = {'gen': [],
                'panics; for a caller that stops a write operation at its first Err, outcome and writer state do not depend on how written '
                'bytes are partitioned (in a session: the bytes between two parent operations; a caller ignoring Err can observe the split: C09_ignoring_errors_refuted); the escape-sequence '
                'write loop as coded equals the fold over bytes for any automaton; a text rendered at the size its layout reported shows every printable cell exactly once in reading '
+               '(hypotheses: no carriage return among the written cells, the constraint does not cut the measured height, the layout '
+               'rectangle is non-empty and inside the view) '
                'order (without wrapping: exactly those not beyond the right edge); a Text deserialised from JSON (TextDeserializer) holds '
-               'exactly the characters and glyphs of the document in document order under the faces of the enclosing objects. Model tied to the code by a differential run '
+               'exactly the characters and glyphs of the document in document order under the faces of the enclosing objects, except the '
+               '"text" of an object that also has a "glyph", which TextDeserializer does not visit; the reference of the predicate is proved '
+               'equal to the notions of the theorems (C09_reference_link). Model tied to the code by a differential run '
                '(canvas of sentinel cells, plain/offset/strided/transposed views, all partitions of short strings).',
  'level_note': 'Trusted: Coq kernel + vm_compute; hand-written model validated by the correspondence run; char widths (unicode-width), '
                'image cell sizes, glyph sizes, the dump of TTY_COMMAND_AUTOMATA and the effect of SGR sequences on faces are sent by the '
